@@ -150,8 +150,13 @@ def _gen_call(rng, kind: str, tier: str) -> dict:
         indirect = rng.random() < 0.35
         n_det = rng.choice([1, 2, 3, 7]) if indirect else 1
         n_en = rng.choice([1, 2, 5, 11])
-        return {"op": "pix", "pix": _gen_pix(rng, tier),
-                "runs": [_gen_experiment(rng, j, indirect, n_det, n_en) for j in range(n_runs)],
+        runs = [_gen_experiment(rng, j, indirect, n_det, n_en) for j in range(n_runs)]
+        share = n_runs > 1 and rng.random() < 0.3
+        if share:
+            for e in runs[1:]:
+                for k in ("u", "v", "efix", "en", "emode"):
+                    e[k] = copy.deepcopy(runs[0][k])
+        return {"op": "pix", "pix": _gen_pix(rng, tier), "runs": runs, "share_vars": share,
                 "n_dims": rng.choice([4, 4, 4, 0, 1, 2, 3])}
     if kind == "instrument":
         return {"op": "instrument", "name": _gstr(rng),
@@ -214,6 +219,7 @@ def generate(rng, tier: str, i: int, prop: str) -> dict:
         "default_chunk": rng.random() < 0.15,
         "permute_seed": rng.randrange(1 << 30) if len(calls) > 1 and rng.random() < 0.5 else None,
         "recreate": sink == "path" and rng.random() < 0.3,
+        "reuse_builder": rng.random() < 0.35,
         "faults": {"mode": "none"},
     }
     # fault family
@@ -322,27 +328,39 @@ def make_dnd(sc, sqw, m: dict):
     return sqw.SqwDndMetadata(axes=axes, proj=proj)
 
 
-def apply_calls(sc, sqw, builder, calls: list[dict]):
+def apply_calls(sc, sqw, builder, calls: list[dict], inputs: list | None = None):
+    import dataclasses
+
+    keep = inputs if inputs is not None else []
     for c in calls:
         op = c["op"]
         if op == "pix":
-            builder = builder.add_pixel_data(
-                make_pixels(sc, c["pix"]),
-                experiments=[make_experiment(sc, sqw, e) for e in c["runs"]],
-                n_dims=c["n_dims"],
-            )
+            pix = make_pixels(sc, c["pix"])
+            exps = [make_experiment(sc, sqw, e) for e in c["runs"]]
+            if c.get("share_vars"):
+                # runs built from one template: the very same Variable objects in every run
+                exps = [exps[0]] + [dataclasses.replace(e, u=exps[0].u, v=exps[0].v, efix=exps[0].efix,
+                                                        en=exps[0].en) for e in exps[1:]]
+            keep += [pix, *exps]
+            builder = builder.add_pixel_data(pix, experiments=exps, n_dims=c["n_dims"])
         elif op == "instrument":
             s = c["source"]
-            builder = builder.add_default_instrument(sqw.SqwIXNullInstrument(
+            inst = sqw.SqwIXNullInstrument(
                 name=c["name"],
                 source=sqw.SqwIXSource(name=s["name"], target_name=s["target"],
-                                       frequency=sc.scalar(float(s["freq"][0]), unit=s["freq"][1]))))
+                                       frequency=sc.scalar(float(s["freq"][0]), unit=s["freq"][1])))
+            keep.append(inst)
+            builder = builder.add_default_instrument(inst)
         elif op == "sample":
-            builder = builder.add_default_sample(sqw.SqwIXSample(
+            smp = sqw.SqwIXSample(
                 name=c["name"], lattice_spacing=sc.vector(c["alatt"][0], unit=c["alatt"][1]),
-                lattice_angle=sc.vector(c["angdeg"][0], unit=c["angdeg"][1])))
+                lattice_angle=sc.vector(c["angdeg"][0], unit=c["angdeg"][1]))
+            keep.append(smp)
+            builder = builder.add_default_sample(smp)
         elif op == "dnd":
-            builder = builder.add_empty_dnd_data(make_dnd(sc, sqw, c["meta"]))
+            meta = make_dnd(sc, sqw, c["meta"])
+            keep.append(meta)
+            builder = builder.add_empty_dnd_data(meta)
         elif op == "detpar":
             builder = builder.add_empty_detector_params()
         else:
@@ -467,16 +485,25 @@ class SqwEngine(Engine):
             p.parent.mkdir(parents=True, exist_ok=True)
         return p
 
-    def _create(self, scn, ctx, sink, calls=None, label="create"):
-        """Build + create().  Returns (exc|None, write_count).  Fresh inputs every time."""
+    def _create(self, scn, ctx, sink, calls=None, label="create", keep=None):
+        """Build + create().  Returns ExcInfo|None.  Fresh inputs every time; with ``keep`` (a dict)
+        the builder and the input objects are handed back for re-use."""
         import scipp as sc
         import scippneutron.io.sqw as sqw
 
         seams.CLOCK.set(scn["clock"])
         seams.CLOCK.ctx = ctx
+        inputs: list = []
+
         def run():
             builder = sqw.Sqw.build(sink, title=scn["title"], byteorder=scn["byteorder"])
-            builder = apply_calls(sc, sqw, builder, scn["calls"] if calls is None else calls)
+            builder = apply_calls(sc, sqw, builder, scn["calls"] if calls is None else calls, inputs)
+            if keep is not None:
+                from .. import canon
+
+                keep["builder"] = builder
+                keep["inputs"] = inputs
+                keep["before"] = [canon.digest(x) for x in inputs]
             if scn.get("default_chunk"):
                 builder.create()
             else:
@@ -484,6 +511,17 @@ class SqwEngine(Engine):
 
         _, exc = core.capture(run)
         ctx.sim_time_span_s += seams.CLOCK.span_s()
+        ctx.log(label, "raised:" + exc.name if exc else "returned")
+        return exc
+
+    def _create_again(self, scn, ctx, builder, label):
+        def run():
+            if scn.get("default_chunk"):
+                builder.create()
+            else:
+                builder.create(chunk_size=scn["chunk"])
+
+        _, exc = core.capture(run)
         ctx.log(label, "raised:" + exc.name if exc else "returned")
         return exc
 
@@ -514,11 +552,13 @@ class SqwEngine(Engine):
 
         # ---- fault-free twin ------------------------------------------------
         sink = self._mk_sink(scn, ctx)
-        exc = self._create(scn, ctx, sink)
+        keep: dict = {}
+        exc = self._create(scn, ctx, sink, keep=keep)
         if exc is not None:
             ctx.violate("create_raised", f"fault-free create() raised {exc}",
                         kind="create_raised", exc=exc.name)
             return
+        self._inputs_untouched(ctx, keep, "create()")
         buf = self._bytes_of(scn, sink)
         ctx.log("file", len(buf), core.h64(buf))
         dec = ref_sqw.decode_file(buf)
@@ -530,6 +570,27 @@ class SqwEngine(Engine):
         if self.prop == "C13":
             self._judge_content(scn, ctx, fin, dec)
             self._judge_reader(scn, ctx, fin, sink, dec)
+
+        # ---- the same builder (and the same input objects) creates the file again -----------
+        if scn.get("reuse_builder") and "builder" in keep:
+            if scn["sink"] == "mem":
+                sink.seek(0)
+                sink.truncate(0)
+                sink.sim_trace.clear()
+            exc = self._create_again(scn, ctx, keep["builder"], "create_again_same_builder")
+            ctx.probe("same_builder_created_twice")
+            if exc is not None:
+                ctx.violate("create_raised", f"second create() on the same builder raised {exc}",
+                            kind="recreate_raised")
+            else:
+                buf2 = self._bytes_of(scn, sink)
+                d2 = ref_sqw.decode_file(buf2)
+                self._judge_structure(scn, ctx, fin, buf2, d2, None, where="second create, same builder")
+                if self.prop == "C13":
+                    self._judge_content(scn, ctx, fin, d2, where="second create, same builder")
+                if buf2 != buf and scn["clock"]["deltas"] == [0.0, 0.0, 0.0]:
+                    ctx.log("second_file_differs")
+                self._inputs_untouched(ctx, keep, "the second create()")
 
         # ---- differential: permuted builder calls -------------------------------
         if scn.get("permute_seed") is not None and self.prop == "C12":
@@ -555,6 +616,20 @@ class SqwEngine(Engine):
                                   scn["faults"].get("partial", 0.0), retry=scn["faults"].get("retry", True))
         elif mode in ("fsize", "fsize_k") and scn["sink"] == "path":
             self._fsize(scn, ctx, fin, dec, buf)
+
+    def _inputs_untouched(self, ctx, keep, what):
+        from .. import canon
+
+        if "inputs" not in keep:
+            return
+        now = [canon.digest(x) for x in keep["inputs"]]
+        for j, (a, b) in enumerate(zip(keep["before"], now, strict=True)):
+            if a != b:
+                ctx.violate("input_modified", f"{what} modified the supplied "
+                            f"{type(keep['inputs'][j]).__name__} (input #{j})", kind="input_modified",
+                            what=type(keep["inputs"][j]).__name__)
+        keep["before"] = now
+        ctx.count("input_snapshots_compared", len(now))
 
     # -------------------------------------------------------------- C12 oracle
     def _judge_structure(self, scn, ctx, fin, buf, dec, trace, where):
@@ -812,7 +887,7 @@ class SqwEngine(Engine):
         p = Path(scn["fname"])
         return os.fspath(p), os.fspath(p.parent), p.name
 
-    def _judge_content(self, scn, ctx, fin, dec):
+    def _judge_content(self, scn, ctx, fin, dec, where="fault-free"):
         import scipp as sc
         import scippneutron.io.sqw as sqw
 
@@ -820,7 +895,7 @@ class SqwEngine(Engine):
         full_filename, filepath, filename = self._expected_paths(scn)
 
         def bad(what, msg, **sig):
-            ctx.violate("content", f"{what}: {msg}", kind="content:" + what, **sig)
+            ctx.violate("content", f"[{where}] {what}: {msg}", kind="content:" + what, **sig)
 
         def get(name):
             b = dec["blocks"].get(name)
